@@ -60,6 +60,11 @@ def catchUp (src : Array UInt8) (anchor : Nat) : Nat → Nat → Nat → Nat × 
   | 0, ip, m => (ip, m)
   | fuel+1, ip, m => if ip > anchor ∧ m > 0 ∧ byteAt src (ip-1) = byteAt src (m-1) then catchUp src anchor fuel (ip-1) (m-1) else (ip, m)
 
+/-- catch up with an explicit `lowLimit` (`match > lowLimit`): the start of the segment the match lies in -/
+def catchUpL (src : Array UInt8) (anchor low : Nat) : Nat → Nat → Nat → Nat × Nat
+  | 0, ip, m => (ip, m)
+  | fuel+1, ip, m => if ip > anchor ∧ m > low ∧ byteAt src (ip-1) = byteAt src (m-1) then catchUpL src anchor low fuel (ip-1) (m-1) else (ip, m)
+
 /-- the `do … while` search loop; `none` = `goto _last_literals` -/
 def search (P : Params) (src : Array UInt8) (mfl1 : Nat) : Nat → Nat → Nat → Nat → Array Nat → Option (Nat × Nat × Array Nat)
   | 0, _, _, _, _ => none
